@@ -557,7 +557,7 @@ func (ip *Interp) store(addr, val Value) {
 	case *Tok:
 		// *p = structValue: whole-object assignment; only zero-value initialisation is supported
 		if t, ok := val.(*Tok); ok {
-			if t.Class == "zero" || t.Class == "struct" {
+			if (t.Class == "zero" || t.Class == "struct") && len(t.Fields) == 0 && len(t.Attr) == 0 {
 				return
 			}
 			// struct value copy: the destination takes over the source's fields
